@@ -672,7 +672,7 @@ def finish(prop, P, tier, seed, kernels, dropped, missing, recs, wall, t_lower, 
         evidence['coverage']['encoder_validation'] = dict(
             what='formula of each distinct body evaluated on concrete inputs (boundary lattice + seeded random) and compared with the natively compiled wrapper: the native result must be an outcome the formula allows',
             bodies_validated=val['bodies'], inputs_agreed=val['agreed'], inputs_outside_preconditions=val['skipped_pre'],
-            inputs_inconclusive=val['inconclusive'], needed_solver=val['solver'], mismatches=mism[:20], mismatch_count=len(mism),
+            inputs_inconclusive=val['inconclusive'], needed_solver=val['solver'], mismatches=mism[:20], mismatch_count=len(mism), mismatch_kernels=dict(collections.Counter(m_['kernel'] for m_ in mism).most_common(40)),
             native_errors=valerr[:10], not_validated_signature=vi.get('unsupported_signature', 0),
             not_covered='wrappers with pointer arguments (validated through counterexample replay only), abstract / token FP modes, architectures the host cannot execute')
         evidence['coverage']['traces_validated_against_impl'] += val['agreed']
